@@ -925,7 +925,15 @@ fn c04_lines(input: &Input, obs: &mut Obs) -> Result<(), Fail> {
         stream.extend_from_slice(&pre);
     }
     let line_start = stream.len();
-    if kind == 0 {
+    if kind == 2 {
+        // a short header line whose value ends in a lone CR (so the line ends CR CR LF), followed by a
+        // line of length len: neither is longer than the limit unless len itself is
+        stream.extend_from_slice(b"GET / HTTP/1.1\r\nX-A: v\r\r\n");
+        let fixed = 7 + 2;
+        stream.extend_from_slice(b"X-Pad: ");
+        stream.extend(std::iter::repeat(b'p').take(len.saturating_sub(fixed)));
+        stream.extend_from_slice(b"\r\n\r\n");
+    } else if kind == 0 {
         // "GET /uuu HTTP/1.1\r\n" of total length len
         let fixed = 4 + 1 + 9 + 2;
         stream.extend_from_slice(b"GET /");
@@ -971,7 +979,7 @@ fn c04_lines_enum(tier: Tier, shard: u64, nshards: u64, f: &mut dyn FnMut(&[u64]
         (0..=80).collect()
     };
     let mut i = 0u64;
-    for kind in 0..2u64 {
+    for kind in 0..3u64 {
         for len in lo..=hi {
             for off in &offs {
                 let modes: &[u64] = if tier == Tier::Quick { &[0] } else { &[0, 1, 4] };
